@@ -1,6 +1,124 @@
-(** C18 — pinned statements (first version). *)
-From TU Require Import Base C18_Model.
+(** C18 — pinned statements. Nothing but statements, [exact], and assumption audits.
+    [K]/[eqb] is the word-equality relation: [str]/[str_eqb] for exact matching, or the
+    lower-cased words supplied by the harness for [ignore_case]. Nothing is assumed of
+    [eqb] (it need not even be an equivalence). *)
+From Coq Require Import Sorting.Sorted.
+From TU Require Import Base C18_Model C18_Proofs.
 
+(** ** Word splitting: the words are the maximal runs free of ASCII whitespace.
+    These three equations determine [split_ascii_ws] on every string. *)
 Theorem split_nil : split_ascii_ws [] = [].
 Proof. reflexivity. Qed.
 Print Assumptions split_nil.
+
+Theorem split_word : forall w, w <> [] /\ forallb (fun c => negb (is_ascii_ws c)) w = true ->
+  split_ascii_ws w = [w].
+Proof. exact split_word_l. Qed.
+Print Assumptions split_word.
+
+Theorem split_sep : forall u c v, is_ascii_ws c = true ->
+  split_ascii_ws (u ++ c :: v) = split_ascii_ws u ++ split_ascii_ws v.
+Proof. exact split_sep_l. Qed.
+Print Assumptions split_sep.
+
+Theorem split_words_ok : forall s,
+  Forall (fun w => w <> [] /\ forallb (fun c => negb (is_ascii_ws c)) w = true) (split_ascii_ws s).
+Proof. exact split_words_ok_l. Qed.
+Print Assumptions split_words_ok.
+
+(** ** The matching *)
+(** never the error value: no [MatchOp::None] is read, no index underflows, the loop ends *)
+Theorem match_total : forall K (eqb : K -> K -> bool) xs ys, exists M, match_keys eqb xs ys = Some M.
+Proof. exact match_total_l. Qed.
+Print Assumptions match_total.
+
+(** strictly increasing in both coordinates *)
+Theorem match_increasing : forall K (eqb : K -> K -> bool) xs ys M,
+  match_keys eqb xs ys = Some M ->
+  StronglySorted (fun p q : nat * nat => fst p < fst q /\ snd p < snd q) M.
+Proof. exact match_increasing_l. Qed.
+Print Assumptions match_increasing.
+
+(** every pair indexes two related words *)
+Theorem match_related : forall K (eqb : K -> K -> bool) xs ys M,
+  match_keys eqb xs ys = Some M ->
+  Forall (fun p => exists x y, nth_error xs (fst p) = Some x /\ nth_error ys (snd p) = Some y /\ eqb x y = true) M.
+Proof. exact match_related_l. Qed.
+Print Assumptions match_related.
+
+(** LCS optimality: no strictly increasing matching of related words is longer.
+    [Matching eqb xs ys M'] unfolds to: [M'] strictly increasing in both coordinates and
+    every pair of it indexes two [eqb]-related words (see the two statements above). *)
+Theorem match_optimal : forall K (eqb : K -> K -> bool) xs ys M M',
+  match_keys eqb xs ys = Some M ->
+  (StronglySorted (fun p q : nat * nat => fst p < fst q /\ snd p < snd q) M' /\
+   Forall (fun p => exists x y, nth_error xs (fst p) = Some x /\ nth_error ys (snd p) = Some y /\ eqb x y = true) M') ->
+  length M' <= length M.
+Proof. exact match_optimal_l. Qed.
+Print Assumptions match_optimal.
+
+(** counts: the reported numbers are the numbers of whitespace-separated words, the pair
+    list is the matching of the two word lists, and its size is the table's corner value *)
+Theorem match_counts : forall a b,
+  exists M, match_words a b = Some (M, length (split_ascii_ws a), length (split_ascii_ws b))
+    /\ match_keys str_eqb (split_ascii_ws a) (split_ascii_ws b) = Some M.
+Proof. exact match_words_spec_l. Qed.
+Print Assumptions match_counts.
+
+Theorem match_size : forall K (eqb : K -> K -> bool) xs ys M,
+  match_keys eqb xs ys = Some M ->
+  length M = lcs_value eqb xs ys /\ length M <= length xs /\ length M <= length ys.
+Proof.
+  intros K eqb xs ys M H. split; [exact (match_size_l K eqb xs ys M H)|].
+  exact (matching_bound_l K eqb xs ys M (match_matching_l K eqb xs ys M H)).
+Qed.
+Print Assumptions match_size.
+
+(** exact matching relates equal words *)
+Theorem str_eqb_iff : forall a b, str_eqb a b = true <-> a = b.
+Proof. exact str_eqb_eq. Qed.
+Print Assumptions str_eqb_iff.
+
+(** a sequence matched with itself: the diagonal (used by C13) *)
+Theorem match_self : forall K (eqb : K -> K -> bool) (xs : list K) M,
+  (forall x, eqb x x = true) -> match_keys eqb xs xs = Some M ->
+  M = map (fun i => (i, i)) (seq 0 (length xs)).
+Proof. exact match_self_l. Qed.
+Print Assumptions match_self.
+
+(** ** edited_words = complement of the exact matching, on both sides *)
+Theorem edited_complement : forall a b ea eb,
+  edited_words a b = Some (ea, eb) ->
+  exists M, match_words a b = Some (M, length (split_ascii_ws a), length (split_ascii_ws b))
+    /\ (forall i, In i ea <-> i < length (split_ascii_ws a) /\ ~ In i (map fst M))
+    /\ (forall j, In j eb <-> j < length (split_ascii_ws b) /\ ~ In j (map snd M))
+    /\ StronglySorted lt ea /\ StronglySorted lt eb.
+Proof. exact edited_complement_l. Qed.
+Print Assumptions edited_complement.
+
+(** ** The executable statement *)
+(** what the checker accepts is an optimal matching (soundness of [check_C18]'s main clause) *)
+Theorem lcs_matchingb_sound : forall K (eqb : K -> K -> bool) xs ys m,
+  lcs_matchingb eqb xs ys m = true ->
+  Matching eqb xs ys m /\ forall M', Matching eqb xs ys M' -> length M' <= length m.
+Proof. exact lcs_matchingb_sound_l. Qed.
+Print Assumptions lcs_matchingb_sound.
+
+(** ... and it holds of the model's own output whenever the oracle key lists have the right lengths *)
+Theorem check_run : forall v, keys_ok v = true -> check_C18 v (run_C18 v) = true.
+Proof. exact check_run_l. Qed.
+Print Assumptions check_run.
+
+(** Non-vacuity *)
+Example keys_ok_witness :
+  keys_ok (L [L [I 120; I 32; I 88]; L [I 88]; I 1; L [L [I 120]; L [I 120]]; L [L [I 120]]]) = true.
+Proof. vm_compute. reflexivity. Qed.
+Example split_word_witness : [120; 160; 121]%N <> [] /\ forallb (fun c => negb (is_ascii_ws c)) [120; 160; 121]%N = true.
+Proof. split; [discriminate|vm_compute; reflexivity]. Qed.
+(** a tie: [1;2;1] vs [1;1;2] has three optimal matchings; the code's tie-breaking picks this one,
+    and a shorter increasing matching is rejected by the checker *)
+Example match_optimal_witness :
+  match_keys Nat.eqb [1; 2; 1] [1; 1; 2] = Some [(0, 0); (2, 1)]
+  /\ lcs_matchingb Nat.eqb [1; 2; 1] [1; 1; 2] [(0, 1); (1, 2)] = true
+  /\ lcs_matchingb Nat.eqb [1; 2; 1] [1; 1; 2] [(0, 0)] = false.
+Proof. vm_compute. repeat split; reflexivity. Qed.
